@@ -221,7 +221,7 @@ func c02mask(p *Program, r *Report, rule string) {
 			}
 			fname := p.FuncName(fa.Fn)
 			ok := fname == "readFrameHeader"
-			if fname == "Conn.writeFrame" && fa.Store != nil {
+			if p.ownedBy(fa.Fn, func(o string) bool { return o == "Conn.writeFrame" }) && fa.Store != nil {
 				if c, isC := fa.Store.Val.(*ssa.Const); isC && c.Value != nil && c.Value.ExactString() == "true" {
 					ok = true
 				}
@@ -241,9 +241,13 @@ func c02mask(p *Program, r *Report, rule string) {
 	// byte order agreement of the key
 	orders := map[string]string{}
 	for _, cs := range p.CallSites() {
-		fname := p.FuncName(cs.Fn)
-		if (fname == "Conn.writeFrame" || fname == "writeFrameHeader" || fname == "readFrameHeader") && (strings.HasSuffix(cs.Name, ".Uint32") || strings.HasSuffix(cs.Name, ".PutUint32")) {
-			orders[fname] = cs.Name[:strings.LastIndex(cs.Name, ".")]
+		if !(strings.HasSuffix(cs.Name, ".Uint32") || strings.HasSuffix(cs.Name, ".PutUint32")) {
+			continue
+		}
+		for _, fname := range p.ownersOf(cs.Fn) {
+			if fname == "Conn.writeFrame" || fname == "writeFrameHeader" || fname == "readFrameHeader" {
+				orders[fname] = cs.Name[:strings.LastIndex(cs.Name, ".")]
+			}
 		}
 	}
 	same := len(orders) == 3
